@@ -4,7 +4,9 @@
 (*  rc          cell-wise: out = Pwm!RC(m), applying it twice gives m      *)
 (*  rc_commute  rc(convert(m)) and convert(rc(m)) are both the exact       *)
 (*              conversion of RC(m) (strand-symmetric pseudocounts and     *)
-(*              background), for frequencies, weights and log-odds         *)
+(*              background), for frequencies, weights and log-odds; two    *)
+(*              reverse complements give the original object back (cells,  *)
+(*              background, ==) and the background is carried along        *)
 (*  rc_score    the reverse-complemented matrix scores position L-M-i of   *)
 (*              the reverse-complemented sequence as the matrix scores i   *)
 (***************************************************************************)
@@ -43,7 +45,13 @@ Apply(s, e) ==
              f == Len(e.af) = Len(c) /\ Len(e.bf) = Len(c) /\ FreqOf(c, e, e.af) /\ FreqOf(c, e, e.bf) /\ Near(e.af, e.bf, 2)
              w == Len(e.aw) = Len(c) /\ Len(e.bw) = Len(c) /\ WeightOf(c, e, e.aw) /\ WeightOf(c, e, e.bw) /\ Near(e.aw, e.bw, 3)
              sc == Len(e.as) = Len(c) /\ Len(e.bs) = Len(c) /\ ScoreOf2(c, e, e.as) /\ ScoreOf2(c, e, e.bs) /\ Near(e.as, e.bs, 2)
-         IN [ok |-> f /\ w /\ sc, st |-> s, exp |-> [why |-> IF ~f THEN "freq_commute" ELSE IF ~w THEN "weight_commute" ELSE "score_commute"]]
+             \* the objects, not only their cells: rc(rc(x)) is x again (cells, background, ==), and under a
+             \* strand-symmetric background the reverse-complemented weight / scoring matrix carries that background
+             inv == e.w2 = e.w0 /\ e.s2 = e.s0 /\ e.w2eq /\ e.s2eq
+             bgok == Len(e.bgs) = 4 /\ \A j \in 1..4 : \A k \in 1..5 : QNear(e.bgs[j][k], e.bn[k], e.bd, Q12, 1)
+         IN [ok |-> f /\ w /\ sc /\ inv /\ bgok, st |-> s,
+             exp |-> [why |-> IF ~f THEN "freq_commute" ELSE IF ~w THEN "weight_commute" ELSE IF ~sc THEN "score_commute"
+                              ELSE IF ~inv THEN "not_an_involution" ELSE "background_lost"]]
     [] e.ev = "rc_score" ->
          LET L == Len(e.seq)  M == Len(e.m)  n == NScores(L, M)
              a == e.seq2 = RCSeq(e.seq)
